@@ -70,6 +70,8 @@ def monitor(case, obs):
         if ev[0] == "api" and ev[1] in ("force_quit", "raise_exit") and stop is None:
             # a stop request issued before App.run() (start-up actions) does not count: run() resets the force-quit flag and an exit request there never reaches run()
             if any(e[0][0] in ("H", "cb") for e in x.x[:i]): stop = (i, ev[1])
+        if ev[0] == "api<" and ev[1] == "close_loop" and ctx.get("depth") == 0 and stop is None:
+            stop = (i, "close_loop of the outermost loop")         # the outermost loop is closed (its drain is over): nothing may run any more
         if stop is not None and i > stop[0] and ev[0] == "H":
             return "handler %d was invoked (signal %r) after %s" % (ev[1], ev[2], stop[1])
         if stop is not None and i > stop[0] and ev[0] == "EXC-handled":
